@@ -2,8 +2,10 @@
 
     Fragment F (see Model.v): programs [mkprog decls body] whose body is loop-free ([loop_free_b]): locals declared
     up-front with literal initialisers, literal reassignments, [if/elseif/else], conditions built from
-    [type(x) == "T"], [x == nil], [x ~= nil], [x], [not], [and], [or] and opaque conditions (undefined globals,
-    nondeterministic booleans supplied by the oracle [o]).
+    [type(x) == "T"], [x == nil], [x ~= nil] (and the flipped forms ["T" == type(x)], [nil == x], [nil ~= x]), [x], [not],
+    [and], [or] and opaque conditions (undefined globals, nondeterministic booleans supplied by the oracle [o]),
+    [assert(c)], and the early exits [if c then .. return end] / [if c then .. error(..) end]; a failed assert, an error and
+    a return end the chunk ([OStop true]): the trace is what was executed up to there.
     [run o fuel p] is the semantics (A): its trace lists, for every probe executed, the probe id, the variable, the runtime
     value (type tag; booleans keep their truth value) and whether the probe is inside a loop.
     [infer_var p x] is the analyzer's inference (B) for variable [x]: probe id, inside a loop?, inferred type. *)
